@@ -44,6 +44,10 @@ pub struct GraphModel {
     /// when set, `as_svg` returns a textual rendering of the path (lets the Explorer's use of
     /// `Path::from_fingerprints` be observed over HTTP); not part of the wire format
     pub svg: bool,
+    /// when set, the model overrides the two PRESENTATION hooks: `format_action` prints `act<label>` and
+    /// `format_step` has something to show (`o<label>`) only for odd labels — whether or not the model takes the step.
+    /// Nothing that decides behaviour may depend on these hooks; not part of the wire format
+    pub fmt: bool,
 }
 
 pub const PROP_NAMES: [&str; 5] = ["p0", "p1", "p2", "p3", "p4"];
@@ -79,6 +83,24 @@ impl Model for GraphModel {
             .take(5)
             .map(|(i, (e, _))| Property { expectation: e.clone(), name: PROP_NAMES[i], condition: CONDS[i] })
             .collect()
+    }
+    fn format_action(&self, action: &Act) -> String {
+        if self.fmt {
+            format!("act{}", action.0)
+        } else {
+            format!("{:?}", action)
+        }
+    }
+    fn format_step(&self, last_state: &u16, action: Act) -> Option<String> {
+        if self.fmt {
+            if action.0 % 2 == 1 {
+                Some(format!("o{}", action.0))
+            } else {
+                None
+            }
+        } else {
+            self.next_state(last_state, action).map(|s| format!("{:#?}", s))
+        }
     }
     fn as_svg(&self, path: Path<u16, Act>) -> Option<String> {
         if self.svg {
@@ -222,7 +244,7 @@ impl GraphModel {
         if edges.len() != n || props.len() > 5 {
             return None;
         }
-        Some(GraphModel { n, init, edges, boundary, props, svg: false })
+        Some(GraphModel { n, init, edges, boundary, props, svg: false, fmt: false })
     }
 
     /// Seeded random model. Shapes are mixed on purpose: sparse chains, dense graphs with joins and
@@ -302,7 +324,7 @@ impl GraphModel {
             };
             props.push((e, mask));
         }
-        GraphModel { n, init, edges, boundary, props, svg: false }
+        GraphModel { n, init, edges, boundary, props, svg: false, fmt: false }
     }
 
     pub fn all_mask(&self) -> u32 {
@@ -448,7 +470,7 @@ pub fn enumerate_small(
         for boundary in 0..=all {
             for init_mask in 1..=all {
                 let init: Vec<u16> = (0..n as u16).filter(|s| (init_mask >> s) & 1 == 1).collect();
-                let g = GraphModel { n, init, edges: edges.clone(), boundary, props: props.clone(), svg: false };
+                let g = GraphModel { n, init, edges: edges.clone(), boundary, props: props.clone(), svg: false, fmt: false };
                 if !f(idx, &g) {
                     return idx + 1;
                 }
